@@ -25,7 +25,7 @@ def Kind.fixedText : Kind → Option String
 /-- Further tokens whose text the lexer fixes and which the printer prints as constants. -/
 def Kind.fixedTok : Kind → Option String
   | .leftBracket => some "[" | .rightBracket => some "]" | .star => some "*" | .underscore => some "_"
-  | .dollar => some "$" | .dot => some "."
+  | .dollar => some "$" | .dot => some "." | .hash => some "#"
   | _ => none
 
 mutual
